@@ -781,7 +781,10 @@ namespace cds { namespace algo {
                             if ( pPrev->pNext.compare_exchange_strong( p, pNext,
                                 memory_model::memory_order_acquire, atomics::memory_order_relaxed ))
                             {
-                                p->nState.store( inactive, memory_model::memory_order_release );
+                                // The owner thread can exit right now and mark the record as "removed";
+                                // that mark must not be lost or the record would never be freed
+                                unsigned int nState = active;
+                                p->nState.compare_exchange_strong( nState, inactive, memory_model::memory_order_release, atomics::memory_order_relaxed );
                                 p = pNext;
                                 m_Stat.onDeactivatePubRecord();
                                 continue;
